@@ -153,14 +153,18 @@ Proof. exact branch_write_spec. Qed.
 
 (* ------------------------------------------------------------------ (5) references to entries *)
 
-(* Where a unit offset comes from: no table (CFI) and a not-yet-assigned entry are the two specific errors. *)
+(* Where a unit offset comes from: no table (CFI) and a not-yet-assigned entry are the two specific errors.
+   (wrglue follow-up) An id beyond the entries vector — reserved and never added — is "not assigned" too: since /repo
+   fix c42c00d UnitOffsets::debug_info_offset answers None for it (`self.entries.get(index)?`), so it is the
+   forward-reference error, not a panic; the model had kept the index panic and is corrected. For ids inside the
+   vector the statement is unchanged. *)
 Theorem entry_offset_exact : forall dbg uo en,
   entry_offset dbg uo en =
   match uo with
   | None => Err WUnsupportedCfiExpressionReference
   | Some u =>
       match nth_N (uo_entries u) en with
-      | None => Panic
+      | None => Err WUnsupportedExpressionForwardReference
       | Some off =>
           if off =? 0 then Err WUnsupportedExpressionForwardReference
           else chk_sub 64 dbg off (uo_unit u)
@@ -274,6 +278,12 @@ Example forward_ref : write_expr true enc4 (Some tbl) true 0 [WoDerefType false 
 Proof. vm_compute. reflexivity. Qed.
 Example forward_ref_size : size_expr true enc4 (Some tbl) [WoDerefType false 4 3] = Err WUnsupportedExpressionForwardReference.
 Proof. vm_compute. reflexivity. Qed.
+Example beyond_vector_ref :
+  write_expr true enc4 (Some tbl) true 0 [WoDerefType false 4 9] = Err WUnsupportedExpressionForwardReference /\
+  size_expr false enc4 (Some tbl) [WoDerefType false 4 9] = Err WUnsupportedExpressionForwardReference /\
+  write_expr false enc4 (Some tbl) true 0 [WoCall 9] = Err WUnsupportedExpressionForwardReference /\
+  apply_fixups false [tbl] 0 [x00; x00; x00; x00] [{| fx_offset := 0; fx_size := 4; fx_unit := 0; fx_entry := 9 |}] = Err WInvalidReference.
+Proof. vm_compute. repeat split; reflexivity. Qed.
 Example cfi_ref : write_expr true enc4 None false 0 [WoCall 1] = Err WUnsupportedCfiExpressionReference.
 Proof. vm_compute. reflexivity. Qed.
 Example sym_ref : write_expr true enc4 (Some tbl) true 0 [WoVarValue (RSym 1)] = Err WInvalidReference.
